@@ -89,7 +89,8 @@ func SimC05(c *CheckCtx, i int, r *Rng) error {
 			gens = append([]proto.GenScript{}, gens...)
 			gi := r.Range(1, len(gens)-1)
 			if isScripted(&gens[gi]) {
-				muted := muteGen(r, m, gens[gi], r.Intn(len(m.Pkgs)))
+				pm := r.Intn(len(m.Pkgs))
+				muted := muteGen(r, m, gens[gi], pm)
 				for k, rule := range muted.Rules {
 					if rule.Ret == "ignore" || rule.Ret == "wrapped-ignore" {
 						rule.Ret = ""
@@ -98,6 +99,25 @@ func SimC05(c *CheckCtx, i int, r *Rng) error {
 				}
 				gens[gi] = muted
 				c.Env.Stats.Add("probe/generator-muted-after-setup", 1)
+				if pq := r.Intn(len(m.Pkgs)); pq != pm && r.P(0.7) {
+					// ... while ANOTHER package of the run has a type for which some generator answers ErrIgnore
+					// ("keep what is there" - for that package and that generator only)
+					gj := r.Range(1, len(gens)-1)
+					if isScripted(&gens[gj]) {
+						g := gens[gj]
+						rules := map[string]proto.Rule{}
+						for k, v := range g.Rules {
+							rules[k] = v
+						}
+						key := m.ImportPath(pq) + " " + m.Pkgs[pq].Anchor
+						rule := rules[key]
+						rule.Ret = Pick(r, []string{"ignore", "wrapped-ignore"})
+						rules[key] = rule
+						g.Rules = rules
+						gens[gj] = g
+						c.Env.Stats.Add("probe/errignore-in-another-package", 1)
+					}
+				}
 			}
 		}
 	}
